@@ -697,3 +697,35 @@ Proof.
   unfold sv_displacement, cb_displacement. destruct (Rlt_dec 0 rate); simpl; split; intros; try lra; try discriminate.
   reflexivity.
 Qed.
+
+(** *** instances used by Props/C03.v *)
+Lemma ip_derivative_is_derive_3d (p pref c1 c2 speed : R) (sep : vec3) (d : nat) :
+  (d < 3)%nat -> 0 < dot3 sep sep ->
+  is_derive (fun s => ip_U p (pref * c1 * c2) (norm3 (sub3 sep (scal3 (s * speed) (unit3 d))))) 0
+            (sv_derivative (ip_derivative p pref c1 c2 (comp3 sep d) (trans3 sep d)) speed).
+Proof.
+  intros. apply (derivative_is_derive_3d (ip_U p (pref * c1 * c2)) (ip_derivative p pref c1 c2)); auto.
+  intros. apply ip_derivative_is_derive; assumption.
+Qed.
+
+Lemma lj_derivative_is_derive_3d (k sigma speed : R) (sep : vec3) (d : nat) :
+  (d < 3)%nat -> 0 < dot3 sep sep ->
+  is_derive (fun s => lj_U k sigma (norm3 (sub3 sep (scal3 (s * speed) (unit3 d))))) 0
+            (sv_derivative (lj_derivative k sigma (comp3 sep d) (trans3 sep d)) speed).
+Proof.
+  intros. apply (derivative_is_derive_3d (lj_U k sigma) (lj_derivative k sigma)); auto.
+  intros. apply lj_derivative_is_derive; assumption.
+Qed.
+
+Lemma dep_derivative_is_derive_3d (k r0 : R) (p : nat) (speed : R) (sep : vec3) (d : nat) :
+  (d < 3)%nat -> 0 < dot3 sep sep ->
+  is_derive (fun s => dep_U k r0 p (norm3 (sub3 sep (scal3 (s * speed) (unit3 d))))) 0
+            (sv_derivative (dep_derivative k r0 p (comp3 sep d) (trans3 sep d)) speed).
+Proof.
+  intros. apply (derivative_is_derive_3d (dep_U k r0 p) (dep_derivative k r0 p)); auto.
+  intros. apply dep_derivative_is_derive; assumption.
+Qed.
+
+Lemma bend_sums_to_zero (k phi0 a1 a2 n1 n2 dt : R) :
+  let '(di, dj, dk) := bend_derivative k phi0 a1 a2 n1 n2 dt in di + dj + dk = 0.
+Proof. unfold bend_derivative. ring. Qed.
